@@ -1,32 +1,34 @@
 (* L1: capnp.Equal (pointer.go) over the read-side model, following the Go code step by
    step: same checks in the same order, the bytewise fast path for data-only lists, the
    traversal limit consumed by every Struct.Ptr, Go panics as [EPanic].
-   The two pointers live in message A and message B, or both in message A ([ew_same]); a
+   The two pointers live in message A and message B, or both in message A ([ec_same]); a
    message is its segments, capability table (client ids, 0 = nil client) and read limit.
    [fx_bitlist]: false = the code as found (defect F01: a bit list has element size 0, so
    the fast path compares 0 bytes), true = the repaired code.
+   [fx_farnull]: false = as found (O3: the extra pointers of the longer struct are tested by
+   their raw word, so a far pointer to a null landing pad counts as a pointer), true = repaired.
    No proofs in this file. *)
 From CV Require Export Value.ValueEq.
 Open Scope Z_scope.
 
-Record efix := mkEFix { fx_bitlist : bool; fx_rd : fixes }.
+Record efix := mkEFix { fx_bitlist : bool; fx_farnull : bool; fx_rd : fixes }.
 
-Record eworld := mkEW {
-  ew_segs_a : segs; ew_caps_a : list Z;
-  ew_segs_b : segs; ew_caps_b : list Z;
-  ew_same : bool;                      (* both pointers belong to message A *)
-  ew_rla : Z; ew_rlb : Z               (* remaining read limits *)
+(* the static context of one comparison: the two messages (segments, capability table) and
+   whether both pointers belong to message A; the state is the pair of remaining read limits *)
+Record ectx := mkEC {
+  ec_segs_a : segs; ec_caps_a : list Z;
+  ec_segs_b : segs; ec_caps_b : list Z;
+  ec_same : bool
 }.
+Definition lims := (Z * Z)%type.
 
 Inductive side := SA | SB.
-Definition on_a (w : eworld) (s : side) : bool := ew_same w || match s with SA => true | SB => false end.
-Definition w_segs_of (w : eworld) (s : side) : segs := if on_a w s then ew_segs_a w else ew_segs_b w.
-Definition w_caps_of (w : eworld) (s : side) : list Z := if on_a w s then ew_caps_a w else ew_caps_b w.
-Definition w_rl_of (w : eworld) (s : side) : Z := if on_a w s then ew_rla w else ew_rlb w.
-Definition w_put_rl (w : eworld) (s : side) (rl : Z) : eworld :=
-  if on_a w s
-  then mkEW (ew_segs_a w) (ew_caps_a w) (ew_segs_b w) (ew_caps_b w) (ew_same w) rl (ew_rlb w)
-  else mkEW (ew_segs_a w) (ew_caps_a w) (ew_segs_b w) (ew_caps_b w) (ew_same w) (ew_rla w) rl.
+Definition on_a (x : ectx) (s : side) : bool := ec_same x || match s with SA => true | SB => false end.
+Definition segs_of (x : ectx) (s : side) : segs := if on_a x s then ec_segs_a x else ec_segs_b x.
+Definition caps_of (x : ectx) (s : side) : list Z := if on_a x s then ec_caps_a x else ec_caps_b x.
+Definition rl_of (x : ectx) (st : lims) (s : side) : Z := if on_a x s then fst st else snd st.
+Definition put_rl (x : ectx) (st : lims) (s : side) (rl : Z) : lims :=
+  if on_a x s then (rl, snd st) else (fst st, rl).
 
 (* outcome of Equal: (bool, nil) / (false, err) / panic; fuel exhaustion is a separate
    outcome that the theorems exclude *)
@@ -47,22 +49,34 @@ Definition struct_data_equal (d1 d2 : list Z) : bool :=
   else if (n2 <? n1)%nat then bytes_eqb (firstn n2 d1) d2 && all_zero (skipn n2 d1)
   else bytes_eqb d1 d2.
 
-(* for i := from; i < from+n; i++ { if s.HasPtr(i) { return false } } *)
-Fixpoint no_ptrs (m : segs) (p : Ptr) (n : nat) (i : Z) : res bool :=
+(* Struct.hasNonNullPtr(i), i < PointerCount (the repair of O3): the raw word is non-zero and
+   does not resolve, through a far pointer, to a null landing pad *)
+Definition has_nonnull_ptr (strict : bool) (m : segs) (p : Ptr) (i : Z) : res bool :=
+  do v <- readRawPointer (seg_of m p) (pointerAddress p i);
+  if v =? 0 then Ok false
+  else match resolveFarPointer strict m (p_seg p) (seg_of m p) (pointerAddress p i) with
+       | Ok (_, _, _, val) => Ok (negb (val =? 0))
+       | Err => Ok true
+       | Panic => Panic
+       end.
+
+(* for i := from; i < from+n; i++ { if s.hasNonNullPtr(i) { return false } }
+   ([fixed] = false, as found: s.HasPtr(i), the raw pointer word) *)
+Fixpoint no_ptrs (fixed strict : bool) (m : segs) (p : Ptr) (n : nat) (i : Z) : res bool :=
   match n with
   | O => Ok true
-  | S n' => do h <- struct_hasptr m p i;
-            if h then Ok false else no_ptrs m p n' (i + 1)
+  | S n' => do h <- (if fixed then has_nonnull_ptr strict m p i else struct_hasptr m p i);
+            if h then Ok false else no_ptrs fixed strict m p n' (i + 1)
   end.
 
 (* Interface case *)
 Definition client_of (caps : list Z) (i : Z) : Z :=
   if (0 <=? i) && (i <? zlen caps) then nth (Z.to_nat i) caps 0 else 0.
 
-Definition iface_equal (w : eworld) (p q : Ptr) : bool :=
-  let same_msg := ew_same w in
-  let c1 := w_caps_of w SA in
-  let c2 := w_caps_of w SB in
+Definition iface_equal (x : ectx) (p q : Ptr) : bool :=
+  let same_msg := ec_same x in
+  let c1 := caps_of x SA in
+  let c2 := caps_of x SB in
   if same_msg && (p_len p =? p_len q) then true
   else if same_msg && ((p_len p >=? zlen c1) || (p_len q >=? zlen c1)) then false
   else client_of c1 (p_len p) =? client_of c2 (p_len q).
@@ -77,123 +91,141 @@ Definition bits_equal (d1 d2 : list Z) (n : Z) : bool :=
     let l2 := nth (sz - 1) d2 0 in
     (l1 mod 2 ^ rem =? l2 mod 2 ^ rem) && bytes_eqb (firstn (sz - 1) d1) (firstn (sz - 1) d2).
 
-Fixpoint equal_m (fuel : nat) (c : config) (fx : efix) (w : eworld) (p q : Ptr) {struct fuel}
-  : eout * eworld :=
-  match fuel with
-  | O => (EFuel, w)
-  | S f =>
-    if negb (p_valid p) && negb (p_valid q) then (EOk true, w)
-    else if negb (p_valid p) || negb (p_valid q) then (EOk false, w)
-    else
-      let m1 := w_segs_of w SA in
-      let m2 := w_segs_of w SB in
-      match p_kind p, p_kind q with
-      | KStruct, KStruct =>
-        match slice (seg_of m1 p) (p_off p) (DataSize (p_size p)) with
-        | Panic => (EPanic, w) | Err => (EErr, w)
-        | Ok d1 =>
-          match slice (seg_of m2 q) (p_off q) (DataSize (p_size q)) with
-          | Panic => (EPanic, w) | Err => (EErr, w)
-          | Ok d2 =>
-            if negb (struct_data_equal d1 d2) then (EOk false, w) else
-            let pc1 := PointerCount (p_size p) in
-            let pc2 := PointerCount (p_size q) in
-            let n := Z.min pc1 pc2 in
-            (* common pointers *)
-            let loop :=
-              (fix loop (k : nat) (i : Z) (w : eworld) {struct k} : eout * eworld :=
-                 match k with
-                 | O => (EOk true, w)
-                 | S k' =>
-                   let '(r1, rl1) := struct_ptr c (w_segs_of w SA) (w_rl_of w SA) p i in
-                   let w1 := w_put_rl w SA rl1 in
-                   match r1 with
-                   | Panic => (EPanic, w1) | Err => (EErr, w1)
-                   | Ok sp1 =>
-                     let '(r2, rl2) := struct_ptr c (w_segs_of w1 SB) (w_rl_of w1 SB) q i in
-                     let w2 := w_put_rl w1 SB rl2 in
-                     match r2 with
-                     | Panic => (EPanic, w2) | Err => (EErr, w2)
-                     | Ok sp2 =>
-                       match equal_m f c fx w2 sp1 sp2 with
-                       | (EOk true, w3) => loop k' (i + 1) w3
-                       | other => other
-                       end
-                     end
-                   end
-                 end) in
-            match loop (Z.to_nat n) 0 w with
-            | (EOk true, w') =>
-              match no_ptrs m1 p (Z.to_nat (pc1 - n)) n with
-              | Panic => (EPanic, w') | Err => (EErr, w')
-              | Ok false => (EOk false, w')
-              | Ok true =>
-                match no_ptrs m2 q (Z.to_nat (pc2 - n)) n with
-                | Panic => (EPanic, w') | Err => (EErr, w')
-                | Ok b => (EOk b, w')
-                end
-              end
-            | other => other
-            end
+(* [rec] is the recursive call (Equal on two child pointers / two list elements) *)
+Definition erec := lims -> Ptr -> Ptr -> eout * lims.
+
+(* for i := 0; i < n; i++ { sp1 := s1.Ptr(i); sp2 := s2.Ptr(i); Equal(sp1, sp2) } *)
+Definition ptr_loop (c : config) (x : ectx) (rec : erec) (p q : Ptr) : nat -> Z -> lims -> eout * lims :=
+  fix loop (k : nat) (i : Z) (w : lims) {struct k} : eout * lims :=
+    match k with
+    | O => (EOk true, w)
+    | S k' =>
+      let '(r1, rl1) := struct_ptr c (segs_of x SA) (rl_of x w SA) p i in
+      let w1 := put_rl x w SA rl1 in
+      match r1 with
+      | Panic => (EPanic, w1) | Err => (EErr, w1)
+      | Ok sp1 =>
+        let '(r2, rl2) := struct_ptr c (segs_of x SB) (rl_of x w1 SB) q i in
+        let w2 := put_rl x w1 SB rl2 in
+        match r2 with
+        | Panic => (EPanic, w2) | Err => (EErr, w2)
+        | Ok sp2 =>
+          match rec w2 sp1 sp2 with
+          | (EOk true, w3) => loop k' (i + 1) w3
+          | other => other
           end
         end
-      | KList, KList =>
-        if negb (list_len p =? list_len q) then (EOk false, w)
-        else
-          (* the repair of F01 *)
-          let bit_case : option (eout * eworld) :=
-            if fx_bitlist fx then
-              if negb (Bool.eqb (p_bit p) (p_bit q)) then Some (EOk false, w)
-              else if p_bit p then
-                let sz := bitListSize (p_len p) in
-                match slice (seg_of m1 p) (p_off p) sz with
-                | Panic => Some (EPanic, w) | Err => Some (EErr, w)
-                | Ok d1 =>
-                  match slice (seg_of m2 q) (p_off q) sz with
-                  | Panic => Some (EPanic, w) | Err => Some (EErr, w)
-                  | Ok d2 => Some (EOk (bits_equal d1 d2 (p_len p)), w)
-                  end
-                end
-              else None
-            else None in
-          match bit_case with
-          | Some r => r
-          | None =>
-            if negb (p_comp p) && negb (p_comp q) && negb (os_eqb (p_size p) (p_size q)) then (EOk false, w)
-            else if (PointerCount (p_size p) =? 0) && (PointerCount (p_size q) =? 0)
-                    && (DataSize (p_size p) =? DataSize (p_size q)) then
-              (* pure data lists are compared bytewise *)
-              let sz := match times (totalSize (p_size p)) (p_len p) with Some x => x | None => 4294967295 end in
-              match slice (seg_of m1 p) (p_off p) sz with
-              | Panic => (EPanic, w) | Err => (EErr, w)
-              | Ok d1 =>
-                match slice (seg_of m2 q) (p_off q) sz with
-                | Panic => (EPanic, w) | Err => (EErr, w)
-                | Ok d2 => (EOk (bytes_eqb d1 d2), w)
-                end
-              end
-            else
-              (fix loop (k : nat) (i : Z) (w : eworld) {struct k} : eout * eworld :=
-                 match k with
-                 | O => (EOk true, w)
-                 | S k' =>
-                   match list_struct (fx_depth (fx_rd fx)) p i with
-                   | Panic => (EPanic, w) | Err => (EErr, w)
-                   | Ok e1 =>
-                     match list_struct (fx_depth (fx_rd fx)) q i with
-                     | Panic => (EPanic, w) | Err => (EErr, w)
-                     | Ok e2 =>
-                       match equal_m f c fx w e1 e2 with
-                       | (EOk true, w') => loop k' (i + 1) w'
-                       | other => other
-                       end
-                     end
-                   end
-                 end) (Z.to_nat (list_len p)) 0 w
-          end
-      | KIface, KIface => (EOk (iface_equal w p q), w)
-      | _, _ => (EOk false, w)
       end
+    end.
+
+(* for i := 0; i < l1.Len(); i++ { Equal(l1.Struct(i).ToPtr(), l2.Struct(i).ToPtr()) } *)
+Definition elem_loop (fxd : bool) (rec : erec) (p q : Ptr) : nat -> Z -> lims -> eout * lims :=
+  fix loop (k : nat) (i : Z) (w : lims) {struct k} : eout * lims :=
+    match k with
+    | O => (EOk true, w)
+    | S k' =>
+      match list_struct fxd p i with
+      | Panic => (EPanic, w) | Err => (EErr, w)
+      | Ok e1 =>
+        match list_struct fxd q i with
+        | Panic => (EPanic, w) | Err => (EErr, w)
+        | Ok e2 =>
+          match rec w e1 e2 with
+          | (EOk true, w') => loop k' (i + 1) w'
+          | other => other
+          end
+        end
+      end
+    end.
+
+(* the struct case *)
+Definition equal_struct (c : config) (fx : efix) (x : ectx) (rec : erec) (w : lims) (p q : Ptr) : eout * lims :=
+  let m1 := segs_of x SA in
+  let m2 := segs_of x SB in
+  match slice (seg_of m1 p) (p_off p) (DataSize (p_size p)) with
+  | Panic => (EPanic, w) | Err => (EErr, w)
+  | Ok d1 =>
+    match slice (seg_of m2 q) (p_off q) (DataSize (p_size q)) with
+    | Panic => (EPanic, w) | Err => (EErr, w)
+    | Ok d2 =>
+      if negb (struct_data_equal d1 d2) then (EOk false, w) else
+      let pc1 := PointerCount (p_size p) in
+      let pc2 := PointerCount (p_size q) in
+      let n := Z.min pc1 pc2 in
+      match ptr_loop c x rec p q (Z.to_nat n) 0 w with
+      | (EOk true, w') =>
+        match no_ptrs (fx_farnull fx) (cfg_strict c) m1 p (Z.to_nat (pc1 - n)) n with
+        | Panic => (EPanic, w') | Err => (EErr, w')
+        | Ok false => (EOk false, w')
+        | Ok true =>
+          match no_ptrs (fx_farnull fx) (cfg_strict c) m2 q (Z.to_nat (pc2 - n)) n with
+          | Panic => (EPanic, w') | Err => (EErr, w')
+          | Ok b => (EOk b, w')
+          end
+        end
+      | other => other
+      end
+    end
+  end.
+
+(* the list case *)
+Definition equal_list (fx : efix) (x : ectx) (rec : erec) (w : lims) (p q : Ptr) : eout * lims :=
+  let m1 := segs_of x SA in
+  let m2 := segs_of x SB in
+  if negb (list_len p =? list_len q) then (EOk false, w)
+  else
+    (* the repair of F01 *)
+    let bit_case : option (eout * lims) :=
+      if fx_bitlist fx then
+        if negb (Bool.eqb (p_bit p) (p_bit q)) then Some (EOk false, w)
+        else if p_bit p then
+          let sz := bitListSize (p_len p) in
+          match slice (seg_of m1 p) (p_off p) sz with
+          | Panic => Some (EPanic, w) | Err => Some (EErr, w)
+          | Ok d1 =>
+            match slice (seg_of m2 q) (p_off q) sz with
+            | Panic => Some (EPanic, w) | Err => Some (EErr, w)
+            | Ok d2 => Some (EOk (bits_equal d1 d2 (p_len p)), w)
+            end
+          end
+        else None
+      else None in
+    match bit_case with
+    | Some r => r
+    | None =>
+      if negb (p_comp p) && negb (p_comp q) && negb (os_eqb (p_size p) (p_size q)) then (EOk false, w)
+      else if (PointerCount (p_size p) =? 0) && (PointerCount (p_size q) =? 0)
+              && (DataSize (p_size p) =? DataSize (p_size q)) then
+        (* pure data lists are compared bytewise *)
+        let sz := match times (totalSize (p_size p)) (p_len p) with Some x => x | None => 4294967295 end in
+        match slice (seg_of m1 p) (p_off p) sz with
+        | Panic => (EPanic, w) | Err => (EErr, w)
+        | Ok d1 =>
+          match slice (seg_of m2 q) (p_off q) sz with
+          | Panic => (EPanic, w) | Err => (EErr, w)
+          | Ok d2 => (EOk (bytes_eqb d1 d2), w)
+          end
+        end
+      else elem_loop (fx_depth (fx_rd fx)) rec p q (Z.to_nat (list_len p)) 0 w
+    end.
+
+(* one level of Equal *)
+Definition equal_step (c : config) (fx : efix) (x : ectx) (rec : erec) (w : lims) (p q : Ptr) : eout * lims :=
+  if negb (p_valid p) && negb (p_valid q) then (EOk true, w)
+  else if negb (p_valid p) || negb (p_valid q) then (EOk false, w)
+  else
+    match p_kind p, p_kind q with
+    | KStruct, KStruct => equal_struct c fx x rec w p q
+    | KList, KList => equal_list fx x rec w p q
+    | KIface, KIface => (EOk (iface_equal x p q), w)
+    | _, _ => (EOk false, w)
+    end.
+
+Fixpoint equal_m (fuel : nat) (c : config) (fx : efix) (x : ectx) (w : lims) (p q : Ptr) {struct fuel}
+  : eout * lims :=
+  match fuel with
+  | O => (EFuel, w)
+  | S f => equal_step c fx x (equal_m f c fx x) w p q
   end.
 
 (* ------------------------------------------------------------------ the harness entry *)
@@ -216,12 +248,13 @@ Definition run_equal (fuel : nat) (ca cb : config) (fx : efix)
            (sa sb : sel) : eout * Z * Z :=
   let '(rp, rla) := select ca ma (init_rlimit ca) sa in
   let '(rq, rlb) := if same then select ca ma rla sb else select cb mb (init_rlimit cb) sb in
-  let w := if same then mkEW ma capsa mb capsb true rlb 0 else mkEW ma capsa mb capsb false rla rlb in
+  let x := mkEC ma capsa mb capsb same in
+  let w : lims := if same then (rlb, 0) else (rla, rlb) in
   match rp, rq with
   | Ok p, Ok q =>
-    let '(r, w') := equal_m fuel ca fx w p q in (r, ew_rla w', ew_rlb w')
-  | Panic, _ | _, Panic => (EPanic, ew_rla w, ew_rlb w)
-  | _, _ => (EErr, ew_rla w, ew_rlb w)
+    let '(r, w') := equal_m fuel ca fx x w p q in (r, fst w', snd w')
+  | Panic, _ | _, Panic => (EPanic, fst w, snd w)
+  | _, _ => (EErr, fst w, snd w)
   end.
 
 (* every declared list length is within the walker's cap (nothing was cut off, and [denote]
